@@ -14,8 +14,13 @@
 (* every group element (within MaxSteps) by composing them:                *)
 (*   SwapRows(i,j)   transpose two rows and the entries of P and W   (C10) *)
 (*   SwapCols(a,b) NegCol(a) Hadamard(q) AppendZero                  (C08) *)
-(*   PadZero(k, lay)  k zero columns (1 <= k <= 2^14) appended or           *)
-(*                    interleaved: NOT materialised, carried as `pad`  (C08) *)
+(*   PadZero(k, lay)  k zero columns (1 <= k <= 2^14) appended, prepended   *)
+(*                    or interleaved: NOT materialised, carried as `pad`     *)
+(*   WideTo(wk, w, lay)  the WIDE presentation: every column repeated 4^wk  *)
+(*                    times and scaled by 2^-wk (same Gramian), then zero   *)
+(*                    columns up to the total width w, w from a ladder of   *)
+(*                    widths that are no multiples of block-like sizes      *)
+(*                    (primes, 2^k +- 1): NOT materialised either      (C08) *)
 (*   BumpC1(i) BumpC2(i) BumpA BumpB   scale rows / coefficients     (C09) *)
 (*                                                                         *)
 (* INVARIANTS (checked in every reachable state, i.e. along every path):   *)
@@ -35,6 +40,16 @@
 (*   WidenLaw       repeating every column 4 times and halving keeps the   *)
 (*                  Gramian and commutes with every exact aggregator (the  *)
 (*                  WIDE presentation m x (n 4^k) / 2^k used by C10)       *)
+(*   WideLaw        WidenLaw composed with zero columns in every layout     *)
+(*                  (materialised for wk = 1, k = PadSmall; the general     *)
+(*                  case by the two induction steps)                        *)
+(*   HistLaw        ONE aggregator object, ONE storage: the matrix a call   *)
+(*                  sees is the content written last into the presented     *)
+(*                  cell, whatever was there (and was aggregated) before    *)
+(*   NearMaxLaw     fixed weights with sum |w_i| <= 1: every partial sum of *)
+(*                  w @ J (any order, any grouping) is bounded by max |J|   *)
+(*                  - the aggregators for which entries next to the largest *)
+(*                  finite float are inside the quantifier of C10           *)
 (*   RowBracket     the Rayleigh bracket of the singular values by the     *)
 (*                  squared row norms (see below): with it the side of     *)
 (*                  norm_eps on which sigma_max AND the smallest non-zero  *)
@@ -59,6 +74,7 @@ ABMax  == 3
 PadMax == 16384               \* 2^14 zero columns (a large frozen / unused parameter block)
 PadSmall == 2                 \* counts for which TLC materialises the padded matrix (PadLaw)
 WideK  == 5                   \* wide presentation: every column repeated 4^5 times, scaled by 2^-5
+WideKMax == 5
 
 VARIABLES base,   \* [id, m, n, J, P, W]  - constant along a behaviour
           cls,    \* SymClassify(base.J)   - constant along a behaviour
@@ -67,11 +83,12 @@ VARIABLES base,   \* [id, m, n, J, P, W]  - constant along a behaviour
           J,      \* numerators of the transformed matrix (m x n), same denominator den
           P, W,   \* transformed parameter vectors
           c1, c2, ca, cb,
-          pad,    \* [cnt, lay]: cnt further all-zero columns, "append"ed or "interleave"d (not materialised)
+          pad,    \* [cnt, lay, wk]: every column repeated 4^wk times (scaled 2^-wk), then cnt further all-zero
+                  \* columns "append"ed, "prepend"ed or "interleave"d (the presentation; not materialised)
           steps
 
 vars == <<base, cls, rp, Q, den, J, P, W, c1, c2, ca, cb, pad, steps>>
-NoPad == [cnt |-> 0, lay |-> "none"]
+NoPad == [cnt |-> 0, lay |-> "none", wk |-> 0]
 
 M  == base.m
 N0 == base.n
@@ -114,7 +131,11 @@ Curated == <<
   \* lambda_min / lambda_max of the Gramian between 2.5e-4 and 7.2e-4 (condition number of J 37 .. 63)
   << <<4, 4, 3>>, <<-3, -3, -2>> >>,
   << <<4, 3, -3>>, <<-3, -2, 2>>, <<1, 2, 2>> >>,
-  << <<4, 4, 3, 0>>, <<3, 3, 2, 0>>, <<0, -1, 1, 2>>, <<1, -1, 0, 1>> >> >>
+  << <<4, 4, 3, 0>>, <<3, 3, 2, 0>>, <<0, -1, 1, 2>>, <<1, -1, 0, 1>> >>,
+  \* TALL (more objectives than parameters, n < m) with conflicting, linearly independent non-zero rows and one
+  \* zero row: every zero-column presentation turns them into square / wide matrices
+  << <<1, 2>>, <<0, 0>>, <<-2, -1>> >>,
+  << <<1, 1, -1>>, <<0, 0, 0>>, <<2, -2, 0>>, <<-1, -2, -2>> >> >>
 
 CuratedBadlyConditioned == {26, 27, 28}       \* positions of the badly conditioned instances in Curated
 
@@ -155,7 +176,7 @@ Init == /\ base \in Instances
         /\ steps = 0
 
 \* PadZero closes a word: the padded columns are not materialised, no generator acts on them
-Tick == steps < MaxSteps /\ pad.cnt = 0 /\ steps' = steps + 1
+Tick == steps < MaxSteps /\ pad = NoPad /\ steps' = steps + 1
 RowsOn  == Mode \in {"rows", "mixed", "trace"}
 ColsOn  == Mode \in {"cols", "mixed", "trace"}
 ScaleOn == Mode \in {"scale", "trace"}
@@ -204,10 +225,41 @@ AppendZero     == /\ ColsOn /\ Tick /\ N < N0 + MaxZero
 \* NOT materialised: the state keeps the m x N matrix and the pair (count, layout); the presented matrix
 \* is PadM(J, pad) below.  Any count 1..PadMax is an action (TraceAggSymmetry steps logged counts through
 \* it); Next offers the counts of PadCounts.
-PadLays == {"append", "interleave"}
+PadLays == {"append", "interleave", "prepend"}
 PadZero(k, lay) == /\ ColsOn /\ Tick /\ k \in 1..PadMax /\ lay \in PadLays
-                   /\ pad' = [cnt |-> k, lay |-> lay]
+                   /\ pad' = [cnt |-> k, lay |-> lay, wk |-> 0]
                    /\ UNCHANGED <<base, cls, rp, Q, den, J, P, W, c1, c2, ca, cb>>
+
+\* The WIDE presentation of the current matrix with total width w: every column repeated 4^wk times and the
+\* whole scaled by 2^-wk (WidenLaw: the Gramian, hence every weight, every classification and every allowance
+\* are those of the narrow matrix; A(wide J) = wide A(J)), then w - N 4^wk all-zero columns in layout `lay`.
+\* With wk = 0 this is PadZero(w - N, lay).  A Jacobian of that width is what one layer of a real network
+\* produces; nothing in the statement of C08 lets the update depend on how its columns are cut into blocks,
+\* so the widths of the ladder are primes and 2^k +- 1, and the informative columns lie at the front, at the
+\* back or spread over the whole width.  Any (wk, w, lay) within the bounds is an action (TraceAggSymmetry
+\* steps logged presentations through it); Next offers ONE of them per state (WidePick, rotating through the
+\* ladder, the exponents and the layouts with the state) so that the state space stays small while every
+\* width and layout is reached from many instances and words.
+Pow4(k) == IF k = 0 THEN 1 ELSE IF k = 1 THEN 4 ELSE IF k = 2 THEN 16 ELSE IF k = 3 THEN 64 ELSE IF k = 4 THEN 256 ELSE 1024
+WideTo(wk, w, lay) == /\ ColsOn /\ Tick /\ wk \in 0..WideKMax
+                      /\ LET k == w - N * Pow4(wk) IN
+                            /\ k \in 0..PadMax /\ (k = 0) = (lay = "none") /\ (k > 0 => lay \in PadLays)
+                            /\ (k > 0 \/ wk > 0)
+                            /\ pad' = [cnt |-> k, lay |-> lay, wk |-> wk]
+                      /\ UNCHANGED <<base, cls, rp, Q, den, J, P, W, c1, c2, ca, cb>>
+WideWidths == <<521, 769, 1023, 1025, 2053, 4099, 8191, 16381>>     \* primes and 2^10 +- 1
+PadLaySeq  == <<"prepend", "interleave", "append">>
+StateHash  == base.id + 3 * steps
+              + SumSeq([i \in 1..N0 |-> SumSeq([j \in 1..N |-> (2 * i + 3 * j) * Q[i][j] * Q[i][j]])])
+WKMaxFor(w) == CHOOSE k \in 0..WideKMax : N * Pow4(k) <= w /\ (k = WideKMax \/ N * Pow4(k + 1) > w)
+WidePick == LET h  == StateHash
+                nw == Len(WideWidths)
+                w  == WideWidths[(h % nw) + 1]
+                km == WKMaxFor(w)
+                v  == (h \div nw) % 3                       \* densest / one step sparser / half the exponent
+                wk == IF v = 0 THEN km ELSE IF v = 1 THEN (IF km >= 1 THEN km - 1 ELSE 0) ELSE km \div 2
+                ly == PadLaySeq[((h \div (3 * nw)) % 3) + 1]
+            IN  [wk |-> wk, w |-> w, lay |-> IF w = N * Pow4(wk) THEN "none" ELSE ly]
 
 Quads == {q \in [1..4 -> 1..N] : q[1] < q[2] /\ q[2] < q[3] /\ q[3] < q[4]}
 
@@ -228,12 +280,13 @@ DoNegCol     == \E a \in 1..N : NegCol(a)
 DoHadamard   == \E q \in Quads : Hadamard(q)
 DoAppendZero == AppendZero
 DoPadZero    == \E k \in PadCounts, lay \in PadLays : PadZero(k, lay)
+DoWide       == PadCounts # {} /\ LET p == WidePick IN WideTo(p.wk, p.w, p.lay)
 DoBumpC1     == \E i \in 1..M : BumpC1(i)
 DoBumpC2     == \E i \in 1..M : BumpC2(i)
 DoBumpA      == BumpA
 DoBumpB      == BumpB
 
-Next == DoSwapRows \/ DoSwapCols \/ DoNegCol \/ DoHadamard \/ DoAppendZero \/ DoPadZero
+Next == DoSwapRows \/ DoSwapCols \/ DoNegCol \/ DoHadamard \/ DoAppendZero \/ DoPadZero \/ DoWide
         \/ DoBumpC1 \/ DoBumpC2 \/ DoBumpA \/ DoBumpB
 
 Spec == Init /\ [][Next]_vars
@@ -247,6 +300,7 @@ TypeOK == /\ SymIsPerm(rp, M) /\ den \in {1, 2} /\ steps \in 0..MaxSteps
           /\ Len(J) = M /\ \A i \in 1..M : Len(J[i]) = N
           /\ ca \in 1..ABMax /\ cb \in 1..ABMax
           /\ pad.cnt \in 0..PadMax /\ (pad.cnt = 0) = (pad.lay = "none") /\ pad.lay \in PadLays \cup {"none"}
+          /\ pad.wk \in 0..WideKMax
 
 Consistent == /\ J = MatMul(Jp, Q, N)
               /\ P = SymPerm(base.P, rp) /\ W = SymPerm(base.W, rp)
@@ -308,9 +362,16 @@ LawC10 ==
 -----------------------------------------------------------------------------
 (* zero columns in any number and at any place; the wide presentation                           *)
 
-\* position (1-based) of materialised column j among the N + k presented columns
-PadPos(j, k, lay) == IF lay = "interleave" THEN j + ((j - 1) * k) \div N ELSE j
-PadPosSeq == [j \in 1..N |-> PadPos(j, pad.cnt, pad.lay)]
+\* position (1-based) of materialised column j (of nn) among the nn + k presented columns
+PPos(j, nn, k, lay) == IF lay = "interleave" THEN j + ((j - 1) * k) \div nn
+                       ELSE IF lay = "prepend" THEN j + k ELSE j
+PadPos(j, k, lay) == PPos(j, N, k, lay)
+\* the presentation carried by the state has NW = N 4^wk materialised columns: column j of the matrix is
+\* materialised columns (j-1) 4^wk + 1 .. j 4^wk.  Exported / logged: the position of the FIRST copy of every
+\* column and of the last materialised column (the replay computes all positions and must agree on these)
+WR == Pow4(pad.wk)
+NW == N * WR
+PadPosSeq == [q \in 1..(N + 1) |-> PPos(IF q <= N THEN (q - 1) * WR + 1 ELSE NW, NW, pad.cnt, pad.lay)]
 \* the presented vector / matrix (only ever evaluated by TLC for k <= PadSmall)
 PadVec(v, k, lay, zero) == [c \in 1..(N + k) |->
                               IF \E j \in 1..N : PadPos(j, k, lay) = c
@@ -348,15 +409,16 @@ Commutes(bv, X, d, g2, n, emb(_), newtie) ==
 \* PadZero is enabled (a state reached by PadZero has the matrix of its predecessor, and a word of full
 \* length cannot be padded any more: nothing to evaluate there besides the index map).
 PadLaw ==
-    /\ (pad.cnt = 0 /\ steps < MaxSteps) =>
+    /\ (pad = NoPad /\ steps < MaxSteps) =>
          LET bv == BaseVals IN
          /\ \A p \in 0..N : LET emb(v) == InsVec(v, p, RZero) IN
                                Gram(InsM(Q, p)) = IdN0 /\ Commutes(bv, InsM(J, p), den, 1, N + 1, emb, TRUE)
          /\ \A k \in 1..PadSmall : \A lay \in PadLays :
                LET emb(v) == PadVec(v, k, lay, RZero) IN
                Gram(PadM(Q, k, lay)) = IdN0 /\ Commutes(bv, PadM(J, k, lay), den, 1, N + k, emb, TRUE)
-    /\ \A j \in 1..N : /\ PadPosSeq[j] \in 1..(N + pad.cnt)
-                        /\ j > 1 => PadPosSeq[j - 1] < PadPosSeq[j]
+    /\ \A q \in 1..(N + 1) : /\ PadPosSeq[q] \in 1..(NW + pad.cnt)
+                              /\ ((q > 1 /\ q <= N) => PadPosSeq[q - 1] < PadPosSeq[q])
+                              /\ ((q = N + 1) => PadPosSeq[N] <= PadPosSeq[q])
 
 \* The wide presentation: every column repeated 4 times, the whole halved (denominator doubled).  One step
 \* keeps the Gramian and commutes with every exact aggregator; the result is again an integer matrix over a
@@ -369,6 +431,60 @@ HalfR(x) == Frac(x[1], 2 * x[2])
 WidenLaw ==
     LET emb(v) == [c \in 1..(4 * N) |-> HalfR(WidenV(v, 4)[c])]
     IN  Commutes(BaseVals, WidenM(J, 4), 2 * den, 4, 4 * N, emb, FALSE)     \* Gram(X) / (2 den)^2 = Gram(J) / den^2
+
+\* WideTo composes the two: widen, then zero columns in any layout.  Materialised here for one widening step and
+\* PadSmall zero columns in every layout (the matrix Q widened and padded keeps orthonormal rows, so the
+\* presented transformed matrix IS the base matrix times an n0 x w matrix with orthonormal rows); more steps
+\* and more columns by the induction steps WidenLaw and PadLaw.  The widening step is evaluated wherever WideTo
+\* is enabled (after every word), the composition with the three layouts on every instance of the family.
+PadVecN(v, nn, k, lay, zero) == [c \in 1..(nn + k) |->
+                                   IF \E j \in 1..nn : PPos(j, nn, k, lay) = c
+                                   THEN v[CHOOSE j \in 1..nn : PPos(j, nn, k, lay) = c] ELSE zero]
+WideLaw ==
+    (pad = NoPad /\ steps < MaxSteps) =>
+        LET bv == BaseVals
+            X  == WidenM(J, 4)
+            QW == WidenM(Q, 4)
+            embW(v) == [c \in 1..(4 * N) |-> HalfR(WidenV(v, 4)[c])]
+        IN  /\ Commutes(bv, X, 2 * den, 4, 4 * N, embW, FALSE)
+            /\ Gram(QW) = [i \in 1..N0 |-> [j \in 1..N0 |-> 4 * IdN0[i][j]]]
+            /\ steps = 0 => \A lay \in PadLays :        \* the composition: on every instance of the family
+                  LET emb(v) == PadVecN(embW(v), 4 * N, PadSmall, lay, RZero)
+                      XP == [i \in 1..M |-> PadVecN(X[i], 4 * N, PadSmall, lay, 0)]
+                      QP == [i \in 1..N0 |-> PadVecN(QW[i], 4 * N, PadSmall, lay, 0)]
+                  IN  /\ Gram(QP) = [i \in 1..N0 |-> [j \in 1..N0 |-> 4 * IdN0[i][j]]]
+                      /\ Commutes(bv, XP, 2 * den, 4, 4 * N + PadSmall, emb, TRUE)
+            /\ LET p == WidePick IN p.w \in Range(WideWidths) /\ p.wk \in 0..WideKMax /\ N * Pow4(p.wk) <= p.w
+
+\* ---- histories and presentations of the ARGUMENT (one aggregator object, one storage)
+\* The statements are about the matrix, not about the tensor object that carries it.  A training loop keeps
+\* ONE aggregator object and very often ONE pre-allocated Jacobian buffer that is refilled in place.  Storage
+\* model: a cell holds the matrix written last.  A step (c, p) of a plan puts content c ("this" = the
+\* transformed matrix of the state in its presentation, "other" = another matrix of the same shape with a
+\* different Gramian) where presentation p says and calls THE SAME aggregator object on it:
+\*   "fresh"    a new tensor                       "refill"   the cell `buf`, overwritten in place (copy_)
+\*   "view"     ONE strided view object of a larger cell `big`, overwritten in place through the view
+\*   "newview"  the same region of `big`, a NEW view object for every call
+\* HistLaw: the matrix a call sees is the content of its step, whatever the cell held (and whatever was
+\* aggregated) before; hence the expected value of a call on "this" is the one of a fresh object on a fresh
+\* tensor - which is where the replay takes its reference from.
+OtherRows == [i \in 1..M |-> [j \in 1..N |-> (i + 1) * J[M + 1 - i][j]]]    \* rows reversed and scaled by 2..m+1
+HistPlans == <<
+    << [c |-> "other", p |-> "refill"],  [c |-> "this", p |-> "refill"] >>,
+    << [c |-> "other", p |-> "view"],    [c |-> "this", p |-> "view"] >>,
+    << [c |-> "this", p |-> "refill"],   [c |-> "other", p |-> "refill"], [c |-> "this", p |-> "refill"] >>,
+    << [c |-> "other", p |-> "newview"], [c |-> "this", p |-> "newview"] >>,
+    << [c |-> "other", p |-> "fresh"],   [c |-> "this", p |-> "fresh"] >> >>
+HistPlan == HistPlans[(StateHash % Len(HistPlans)) + 1]
+CellName(p) == IF p = "refill" THEN "buf" ELSE IF p \in {"view", "newview"} THEN "big" ELSE "new"
+Content(c) == IF c = "this" THEN J ELSE OtherRows
+RECURSIVE CellAfter(_, _, _)
+CellAfter(plan, k, cell) == IF k = 0 THEN <<>>
+                            ELSE IF CellName(plan[k].p) = cell THEN Content(plan[k].c)
+                            ELSE CellAfter(plan, k - 1, cell)
+HistLaw == \A q \in 1..Len(HistPlans) : \A k \in 1..Len(HistPlans[q]) :
+              /\ HistPlans[q][k].c \in {"this", "other"} /\ HistPlans[q][k].p \in {"fresh", "refill", "view", "newview"}
+              /\ CellAfter(HistPlans[q], k, CellName(HistPlans[q][k].p)) = Content(HistPlans[q][k].c)
 
 Lin(A(_)) == A(RowScale(XC, J)) = RVAdd(RVScale(R(ca), A(RowScale(c1, J))), RVScale(R(cb), A(RowScale(c2, J))))
 LawC09 ==
@@ -393,7 +509,16 @@ GDiag == [i \in 1..M |-> GNow[i][i]]
 MaxDiag == IF M = 0 THEN 0 ELSE CHOOSE x \in Range(GDiag) : \A y \in Range(GDiag) : y <= x
 NZDiag  == {GDiag[i] : i \in SymNonZeroRows(GNow)}
 MinNZDiag == IF NZDiag = {} THEN 0 ELSE CHOOSE x \in NZDiag : \A y \in NZDiag : x <= y
+\* The configurations of norm_eps the replay runs (as written in the constructor call): the default, one above,
+\* one below, and 0 - as the integer 0 and as the float 0.0 - "no lower cut-off".  norm_eps is only a THRESHOLD
+\* below which sigma_max counts as zero; it is not a switch for the normalisation by sigma_max^2: for every
+\* non-zero matrix (sigma_max(2^e diag(c) J) > 0 = norm_eps at EVERY scale e and every positive c, first clause
+\* of RowBracket below) the regularisation reg_eps I is added to the NORMALISED Gramian, so the bound of C09 is
+\* the same one, proportional to the scale of the matrix, at every scale.  On the zero matrix sigma_max = 0 is
+\* not < 0 and the normalisation is 0 / 0: outside the quantifier, skipped and counted.
+NormEpsCfgs == <<"1e-4", "1e-2", "1e-6", "0", "0.0">>
 RowBracket ==
+    /\ cls.trG > 0 => cls.lamFloor >= 1                                      \* a non-zero matrix has sigma_max > 0
     /\ MaxDiag <= cls.lamFloor /\ cls.lamFloor <= cls.trG                   \* max |g_i|^2 <= sigma_max^2 <= tr G
     /\ (cls.rankUnamb /\ cls.rank >= 1) =>                                   \* lambda_min(G') <= min |g_i|^2 :
           LET nz == SymSeqOf(SymNonZeroRows(GNow))                            \* G' - t I is NOT positive definite
@@ -408,10 +533,35 @@ ClassInvariant ==
     /\ SymMGDATies(GNow).tie1 = cls.mgdaTie1
 
 -----------------------------------------------------------------------------
+(* entries next to the largest finite float (C10, "for all finite matrices")                    *)
+
+\* A weighted aggregator with FIXED weights w (independent of J: Mean, Sum, Constant) returns w @ J (C08 (i)).
+\* Whatever the order and the grouping in which a floating-point matrix product accumulates the m terms
+\* w_i J_ij of one output entry (sequentially, in blocks, pairwise, fused), every intermediate value is the
+\* sum over a SUBSET S of the rows.  If sum_i |w_i| <= 1 then |sum_{i in S} w_i J_ij| <= max |J| for every S:
+\* no intermediate can leave the range of the entries, so the result is finite and order-independent up to
+\* rounding even when the entries are next to the largest finite float - such matrices are then inside "for
+\* all finite matrices" of C10 for these aggregators (Mean; Constant with normalised weights P / sum P; the
+\* Constant instances whose given weights happen to satisfy it).  For Sum (sum |w_i| = m), for the other
+\* Constant weights and for everything that forms J J^T, distances or a sum BEFORE dividing, the same
+\* matrices overflow in an order-dependent way on the unchanged code as well: they are outside what can be
+\* demanded, and the flag exported here is what decides it (nothing is decided by the name of an aggregator).
+MaxAbsJ == LET S == {Abs(J[i][j]) : i \in 1..M, j \in 1..N} IN CHOOSE x \in S : \A y \in S : y <= x
+FixedW == [mean   |-> [n |-> Ones(M), d |-> M],  sum    |-> [n |-> Ones(M), d |-> 1],
+           constP |-> [n |-> P, d |-> 1],        constW |-> [n |-> W, d |-> 1],
+           constN |-> [n |-> P, d |-> SumSeq(P)]]                      \* P has entries 0..4, not all zero
+AbsConvex(w) == w.d >= 1 /\ SumSeq([i \in 1..M |-> Abs(w.n[i])]) <= w.d
+SubsetBound(w) == \A S \in SUBSET (1..M) : \A j \in 1..N :
+                     Abs(SumSeq([i \in 1..M |-> IF i \in S THEN w.n[i] * J[i][j] ELSE 0])) <= w.d * MaxAbsJ
+NearMaxLaw == \A key \in DOMAIN FixedW : AbsConvex(FixedW[key]) => SubsetBound(FixedW[key])
+NearMaxFlags == [key \in DOMAIN FixedW |-> AbsConvex(FixedW[key])]
+
+-----------------------------------------------------------------------------
 (* scenario export                                                          *)
 
 ExpLinear(X, d) == [mean |-> SymMean(X, d, N), sum |-> SymSum(X, d, N),
-                    constP |-> SymConstant(P, X, d, N), constW |-> SymConstant(W, X, d, N)]
+                    constP |-> SymConstant(P, X, d, N), constW |-> SymConstant(W, X, d, N),
+                    constN |-> SymConstant(P, X, d * SumSeq(P), N)]
 
 ExpRobust ==
     [tm   |-> [b1 \in 1..(((M - 1) \div 2) + 1) |->
@@ -435,7 +585,8 @@ Scenario ==
      J0 |-> base.J, P0 |-> base.P, W0 |-> base.W,
      rp |-> rp, Q |-> Q, den |-> den, J |-> J, P |-> P, W |-> W,
      c1 |-> c1, c2 |-> c2, a |-> ca, b |-> cb,
-     pad |-> pad, padpos |-> PadPosSeq, widek |-> WideK, ladder |-> LadderWalks,
+     pad |-> pad, padpos |-> PadPosSeq, widek |-> WideK, ladder |-> LadderWalks, normeps |-> NormEpsCfgs,
+     hist |-> HistPlan, other |-> OtherRows, nearmax |-> NearMaxFlags, maxabs |-> MaxAbsJ,
      badcond |-> base.id \in CuratedBadlyConditioned,
      colperm |-> QIsColPerm, cls |-> cls, prefDeg |-> PrefDeg, gd |-> GDiag,
      exp |-> ExpLinear(J, den), rob |-> ExpRobust,
